@@ -54,6 +54,12 @@ def budgets():
             if tgt:
                 f["config/merchants.rules"] = OTHER_RULES
             out.append({"history": "up-migrate", "name": f"csv bak={bak} rulesfile={tgt}", "files": f})
+    # settings.yaml that only MENTIONS the key in a comment; a budget whose config directory is not called "config"
+    f = {"config/settings.yaml": SETTINGS_CSV + "# merchants_file: config/merchants.rules   (uncomment after migrating)\n",
+         "config/merchant_categories.csv": CSV_RULES, "data/s.csv": STMT}
+    out.append({"history": "up-migrate", "name": "csv, settings with a commented-out merchants_file", "files": f})
+    f = {"conf/settings.yaml": SETTINGS_CSV, "conf/merchant_categories.csv": CSV_RULES, "data/s.csv": STMT}
+    out.append({"history": "up-migrate", "name": "csv, config directory named conf", "files": f, "confdir": "conf"})
     for st in ("without-merchants_file", "with-merchants_file", "absent"):
         for bak in (0, 1):
             for tgt in (0, 1):
@@ -118,6 +124,13 @@ def snapshot(root):
     return out
 
 
+_CONFDIR = "config"      # set per case; budgets may keep their settings in a directory of another name
+
+
+def _dirarg():
+    return [] if _CONFDIR == "config" else [_CONFDIR]
+
+
 def run_history(history, root, plan=None, intercept=True):
     """Run the command in a forked child (cwd=root) under the interposer; returns (result, effect log)."""
     log_path = tempfile.mktemp(prefix="c15log-", dir="/dev/shm" if os.path.isdir("/dev/shm") else None)
@@ -135,7 +148,7 @@ def run_history(history, root, plan=None, intercept=True):
                 json.dump({"log": fs.log, "crashed": fs.crashed}, f)
 
     if history == "up-migrate":
-        r = proc.run_cli(["up", "--migrate", "--summary"], cwd=root, pre=pre, post=post)
+        r = proc.run_cli(["up"] + _dirarg() + ["--migrate", "--summary"], cwd=root, pre=pre, post=post)
     elif history == "init":
         r = proc.run_cli(["init"], cwd=root, pre=pre, post=post)
     else:
@@ -153,7 +166,7 @@ def run_history(history, root, plan=None, intercept=True):
 
 def classify(root):
     """`tally up --format json` in a fresh process; returns a comparable classification or a failure marker."""
-    r = proc.run_cli(["up", "--format", "json"], cwd=root)
+    r = proc.run_cli(["up"] + _dirarg() + ["--format", "json"], cwd=root)
     if r["exit"] != 0:
         return ("FAILED", r["exit"])
     try:
@@ -218,8 +231,13 @@ def expected_classification():
     """Classification of the probe statement with the user's rules (a healthy budget holding the same rules)."""
     global _EXPECTED
     if _EXPECTED is None:
+        global _CONFDIR
         root = materialise({"config/settings.yaml": SETTINGS_RULES, "config/merchants.rules": RULES, "data/s.csv": STMT})
-        _EXPECTED = classify(root)
+        saved, _CONFDIR = _CONFDIR, "config"
+        try:
+            _EXPECTED = classify(root)
+        finally:
+            _CONFDIR = saved
         shutil.rmtree(root, ignore_errors=True)
         if _failed(_EXPECTED) or _unknown_only(_EXPECTED):
             raise H.HarnessError(f"healthy budget does not classify: {_EXPECTED}")
@@ -244,7 +262,16 @@ def plans_for(log):
 
 
 def check_case(case):
+    global _CONFDIR
     b = BUDGETS[case["budget"]]
+    _CONFDIR = b.get("confdir", "config")
+    try:
+        return _check_case(case, b)
+    finally:
+        _CONFDIR = "config"
+
+
+def _check_case(case, b):
     history, files = b["history"], b["files"]
     only_plan = case.get("plan")
     viol = []
